@@ -990,4 +990,76 @@ theorem spec2_mapLit (hb : E .budget) (cfg : CheckCfg) (c : SCfg) (cs : List OTy
     exact smok_pure ⟨_, rfl⟩
   · rw [if_neg hl] at hs; cases hs
 
+/-! ### `matches` -/
+
+/-- **the hypothesis on regular expressions**: every pattern the program meets compiles (for a constant
+pattern the compiler has checked it; a computed pattern that does not compile is a run-time failure that
+depends on the pattern's value, which `Spec.eval` reports in the type class) -/
+def RegexTotal (c : SCfg) : Prop := ∀ pat subj, (c.world.regexMatch pat subj).isSome = true
+
+theorem spec2_matches (cfg : CheckCfg) (c : SCfg) (hre : RegexTotal c) (cs : List OTy) (m : Meta) (hasRe : Bool) (l r : Node)
+    (ihl : Spec2 E cfg c cs l) (ihr : Spec2 E cfg c cs r)
+    (hl : ∀ t, synth cfg cs l = some t → vtyOf t = some (.sc .string))
+    (hr : ∀ t, synth cfg cs r = some t → vtyOf t = some (.sc .string)) :
+    Spec2 E cfg c cs (.matches m hasRe l r) := by
+  intro τ V hs hV st hst
+  simp only [synth] at hs
+  cases hsl : synth cfg cs l with
+  | none => rw [hsl] at hs; cases hs
+  | some lt =>
+    cases hsr : synth cfg cs r with
+    | none => rw [hsl, hsr] at hs; cases hs
+    | some rt =>
+      rw [hsl, hsr] at hs
+      simp only [] at hs
+      have hrule := toOption'_some hs
+      obtain ⟨e1, _, ev1⟩ := ihl lt (.sc .string) hsl (hl lt hsl) st hst
+      have hst1 := visit_colls cfg l st
+      rcases hlv : visit cfg l st with ⟨l', lt', st1⟩
+      rw [hlv] at e1 ev1 hst1
+      simp only [] at e1 ev1 hst1
+      subst e1
+      obtain ⟨e2, _, ev2⟩ := ihr rt (.sc .string) hsr (hr rt hsr) st1 (hst1.trans hst)
+      rcases hrv : visit cfg r st1 with ⟨r', rt', st2⟩
+      rw [hrv] at e2 ev2
+      simp only [] at e2 ev2
+      subst e2
+      have hτ : τ = boolTy := by
+        unfold matchesRule at hrule
+        split at hrule
+        · cases hrule; rfl
+        · cases hrule
+      subst hτ
+      have : V = .sc .bool := by
+        have : vtyOf boolTy = some (.sc .bool) := by decide
+        rw [this] at hV; cases hV; rfl
+      subst this
+      simp only [visit, hlv, hrv, hrule, orFail_ok]
+      refine ⟨trivial, setKd_kd _ _, ?_⟩
+      apply smok_evalOKV
+      intro ctx hctx
+      show SMOK E (fun v => ValOfV v (.sc .bool)) (eval c ctx (.matches { m with kd := OTy.kind boolTy } hasRe l' r'))
+      have hmatch : ∀ pat subj, SMOK E (fun v => ValOfV v (.sc .bool))
+          (match c.world.regexMatch pat subj with
+            | some mm => (pure (Val.bool mm) : SM Val)
+            | none => SM.fail .type_) := by
+        intro pat subj
+        obtain ⟨mm, hmm⟩ := Option.isSome_iff_exists.1 (hre pat subj)
+        rw [hmm]
+        exact smok_pure ⟨mm, rfl⟩
+      simp only [eval]
+      refine smok_bind (evalOKV_smok ev1 ctx hctx) ?_
+      intro a ha
+      obtain ⟨subj, rfl⟩ := ha
+      cases hasRe with
+      | true =>
+        simp only [if_true]
+        exact hmatch _ subj
+      | false =>
+        simp only [Bool.false_eq_true, if_false]
+        refine smok_bind (evalOKV_smok ev2 ctx hctx) ?_
+        intro b hb
+        obtain ⟨pat, rfl⟩ := hb
+        exact hmatch pat subj
+
 end ExprModel
